@@ -137,6 +137,7 @@ def context_flags(ops, upto, impl=None):
     targets = set()
     impl = impl or {}
     open_q = set()
+    batch_q = set()
     nreg = 0
     for idx in sorted(ops):
         if idx >= upto:
@@ -146,6 +147,8 @@ def context_flags(ops, upto, impl=None):
         if r.startswith('q '):
             open_q.add(r.split(' ')[1])
             flags.add('was_locked')
+            if cmd in ('BXCHG', 'BSETREL', 'BBATCHQ'):
+                batch_q.add(r.split(' ')[1])
         if cmd in ('QNEXT', 'QSTEP') and r == 'b 0':
             open_q.discard(a[0])
         if cmd == 'QCLOSE' and r == 'ok':
@@ -189,6 +192,10 @@ def context_flags(ops, upto, impl=None):
         flags.add('many_comps')
     if cmd == 'QSCAN' and a and a[0] == 'H':
         flags.add('op_handle')
+        if len(a) > 1 and a[1] in batch_q:
+            flags.add('op_batch_query')
+    if cmd in ('QCOUNT', 'QAT', 'QNEXT', 'QSTEP', 'QENT', 'QVIEW', 'QREL', 'QCLOSE') and a and a[0] in batch_q:
+        flags.add('op_batch_query')
     if 'C' in a and cmd in ('QSCAN', 'QUERY', 'BXCHG', 'BSETREL', 'BRM'):
         flags.add('op_cached')
     if 'R' in a and cmd in ('QSCAN', 'QUERY', 'BXCHG', 'BSETREL', 'BRM', 'CREG'):
